@@ -28,11 +28,12 @@ Proof. exact cmd_path_resolved. Qed.
 Print Assumptions C08_cmd_path_resolved.
 
 (* MLSD line: facts without a space, one space, the name: the client gets exactly the name
-   (leading spaces, ';', '=', 'Type=dir;', digits included) and joins it to the listed directory *)
+   (leading spaces, ';', '=', 'Type=dir;', digits included) and joins it to the listed directory;
+   Some = no ValueError (a line without a pathname is one since the F12 repair) *)
 Theorem C08_mlsd_name_roundtrip : forall (F name : text) dir, nosp F -> valid_name name ->
-  fst (parse_mlsx_line (F ++ SP :: name ++ eol)) = mkp 0 [name]
-  /\ lister_join dir (fst (parse_mlsx_line (F ++ SP :: name ++ eol)))
-     = mkp (anchor dir) (parts dir ++ [name]).
+  option_map fst (parse_mlsx_line (F ++ SP :: name ++ eol)) = Some (mkp 0 [name])
+  /\ option_map (fun r => lister_join dir (fst r)) (parse_mlsx_line (F ++ SP :: name ++ eol))
+     = Some (mkp (anchor dir) (parts dir ++ [name])).
 Proof. exact mlsd_name_roundtrip. Qed.
 Print Assumptions C08_mlsd_name_roundtrip.
 
@@ -55,22 +56,41 @@ Theorem C08_mlst_name_roundtrip : forall code (start fin F name : text) k,
 Proof. exact mlst_name_roundtrip. Qed.
 Print Assumptions C08_mlst_name_roundtrip.
 
-(* PWD.  FULL STATEMENT (does not hold): for every valid_path cwd the client's
-   get_current_directory returns cwd.  Refuted by a name containing a double quote (F8): *)
-Theorem C08_pwd_roundtrip_refuted :
-  exists cwd, valid_path cwd /\ parse_directory_response (rstrip (SP :: pwd_info cwd)) <> cwd.
-Proof. exact pwd_roundtrip_refuted. Qed.
-Print Assumptions C08_pwd_roundtrip_refuted.
-
-(* PARTIAL: missing exactly the directory strings that contain a double quote *)
-Theorem C08_pwd_roundtrip_partial : forall code cwd k,
-  good_code code -> wf cwd -> lf_free (to_str cwd) -> noquote (to_str cwd) ->
+(* PWD, FULL STATEMENT: for every well-formed directory whose string has no LF -- double quotes
+   anywhere in it: leading, trailing, doubled, in runs -- the client's get_current_directory returns
+   exactly the server's working directory: Server.pwd (every quote doubled, the string quoted),
+   write_response, readline/parse_response with its rstrip (C06), parse_directory_response
+   (undoubling; stops at the first unpaired quote).  No hypothesis on quotes is left (F08 repaired). *)
+Theorem C08_pwd_roundtrip : forall code cwd k,
+  good_code code -> wf cwd -> lf_free (to_str cwd) ->
   exists info rest,
     parse_response (split_lines (reply_wire (code, [pwd_info cwd], false) ++ k)) = POk code info rest
     /\ rest = split_lines k
     /\ parse_directory_response (last info []) = cwd.
-Proof. exact pwd_roundtrip_partial. Qed.
-Print Assumptions C08_pwd_roundtrip_partial.
+Proof. exact pwd_roundtrip. Qed.
+Print Assumptions C08_pwd_roundtrip.
+
+(* the paths of the property are among them: valid_path implies wf and LF-free *)
+Theorem C08_pwd_roundtrip_valid : forall code cwd k,
+  good_code code -> valid_path cwd ->
+  exists info rest,
+    parse_response (split_lines (reply_wire (code, [pwd_info cwd], false) ++ k)) = POk code info rest
+    /\ rest = split_lines k
+    /\ parse_directory_response (last info []) = cwd.
+Proof. exact pwd_roundtrip_valid. Qed.
+Print Assumptions C08_pwd_roundtrip_valid.
+
+(* the exact negation of the statement that was refuted before the repair *)
+Theorem C08_pwd_line_roundtrip : forall cwd, wf cwd ->
+  parse_directory_response (rstrip (SP :: pwd_info cwd)) = cwd.
+Proof. exact pwd_line_roundtrip. Qed.
+Print Assumptions C08_pwd_line_roundtrip.
+
+(* the parser alone: text after the closing quote (257 <quoted> created) is never looked at *)
+Theorem C08_pwd_trailing_text_ignored : forall d c rest, (c =? QUOTE) = false ->
+  pdr (SP :: QUOTE :: dbl d ++ QUOTE :: c :: rest) false O [] = d.
+Proof. exact pdr_quoted_trailing. Qed.
+Print Assumptions C08_pwd_trailing_text_ignored.
 
 (* LIST fallback (only used against servers without MLSD, or with raw_command="LIST").
    PARTIAL: missing exactly the names with LEADING whitespace (the parser strip()s the column, F13);
@@ -103,7 +123,22 @@ Proof.
   repeat constructor; try discriminate.
 Qed.
 
+(* the former counterexamples are inside the hypotheses: a<q>b, <q>, <q><q>, x<q>, <q>x, <q><q><q>,
+   <q>a<q><q>b<q> are valid names, the path made of all of them is a valid_path, and on the wire
+   the server spells a<q>b with the quote doubled *)
+Example C08_ex_quote_names_valid : Forall valid_name quote_names.
+Proof. exact quote_names_valid. Qed.
+Example C08_ex_quote_path_valid : valid_path (mkp 1 quote_names).
+Proof. exact quote_path_valid. Qed.
+Example C08_ex_quote_path_roundtrip :
+  parse_directory_response (rstrip (SP :: pwd_info (mkp 1 quote_names))) = mkp 1 quote_names.
+Proof. apply pwd_line_roundtrip. apply valid_path_wf. exact quote_path_valid. Qed.
+Example C08_ex_pwd_info_doubles :
+  pwd_info (mkp 1 [[97; 34; 98]]) = [34; 47; 97; 34; 34; 98; 34].
+Proof. reflexivity. Qed.
+
 (* TODO (lead, Session + ClientTree): the composed statement name_transparent (create under n =>
    enter, PWD, list, stat, upload, download, rename, delete denote the same MemFS node) from the
-   codec theorems above, with quote-free as its only extra hypothesis; validated at wire level by
-   harness/props/c08.py. *)
+   codec theorems above.  Since the F08 repair NO quote-free hypothesis is needed any more (it came
+   from PWD only); the one carve-out left is the LIST fallback (leading whitespace, F13), which the
+   default MLSD path does not go through.  Validated at wire level by harness/props/c08.py. *)
